@@ -39,8 +39,49 @@ def showHandler : Handler → String
   | .lower n => "lower:" ++ n
   | .unknown => "unknown"
 
+def showExc : Option Act → String
+  | none => "return"
+  | some .skipSiblings => "SkipSiblings"
+  | some .skipChildren => "SkipChildren"
+  | some .skipNode => "SkipNode"
+  | some .skipDeparture => "SkipDeparture"
+  | some .none => "return"
+
+/-- `p:c,p:c` (or `-`): node `p`'s main visit method visits node `c` itself -/
+def parseInl (tok : String) : Option (List (Nat × Nat)) :=
+  if tok == "-" then some [] else
+  (tok.splitOn ",").mapM fun pc =>
+    match pc.splitOn ":" with
+    | [p, c] => do some ((← p.toNat?), (← c.toNat?))
+    | _ => none
+
+def inlOf (l : List (Nat × Nat)) (id : Nat) : List Nat := (l.filter (·.1 == id)).map (·.2)
+
+/-- departure actions: one letter per node id (ids 0..n-1), `-` = nobody raises -/
+def dactOf (l : List Act) (id : Nat) : Act := l.getD id .none
+
 def handle (args : List String) : String :=
   match args with
+  | "walkaboutd" :: exts :: dacts :: toks =>
+    -- `visitor walkaboutd <exts> <departure action letters by node id | -> <tree>`
+    match (if exts == "-" then some [] else exts.toList.mapM parseWhen),
+          (if dacts == "-" then some [] else dacts.toList.mapM (fun c => parseAct c.toString)),
+          parseTree (toks.length + 1) toks with
+    | some ws, some ds, some (t, []) =>
+      let r := walkaboutG (fun _ => []) (dactOf ds) ws t
+      "ok " ++ " ".intercalate (r.1.map showEvent) ++ " | " ++ showExc r.2
+    | _, _, _ => "bad-op"
+  | "bstack" :: scopeTok :: skipTok :: inlTok :: exts :: toks =>
+    -- the real builder: full trace with extensions and inline-visited nodes, and the scope stack
+    match Proto.natList scopeTok, Proto.natList skipTok, parseInl inlTok,
+          (if exts == "-" then some [] else exts.toList.mapM parseWhen), parseTree (toks.length + 1) toks with
+    | some sc, some sk, some il, some ws, some (t, []) =>
+      let r := walkaboutG (inlOf il) (fun _ => .none) ws t
+      let full := " ".intercalate (r.1.map showEvent)
+      match stackRun (fun n => sc.contains n) (fun n => sk.contains n) (walkabout [] t).1 [] with
+      | some st => "ok " ++ full ++ " | " ++ showExc r.2 ++ " | stack " ++ Proto.showNatList st
+      | none => "ok " ++ full ++ " | " ++ showExc r.2 ++ " | AssertionError"
+    | _, _, _, _, _ => "bad-op"
   | ["dispatch", cls, defined] =>
     -- `visitor dispatch <class name> <defined method names joined by ','>` ('-' = none)
     let ds := if defined == "-" then [] else defined.splitOn ","
